@@ -41,7 +41,7 @@ ANCHORS = [
     "stereomolgraph.graphs.scrg:StereoCondensedReactionGraph.from_graphs#scrg.set_bond_stereo_change(formed=p_stereo, broken=r_stereo)",
 ]
 REQUIRED_ANCHORS = ANCHORS
-REQUIRED = ["triples", "with_ts", "without_ts", "reversals", "double_reversals", "fleeting_bonds", "fleeting_stereo", "ts_only_descriptors", "scale_cases", "numpy_id_descriptors"]
+REQUIRED = ["triples", "with_ts", "without_ts", "reversals", "double_reversals", "fleeting_bonds", "fleeting_stereo", "ts_only_descriptors", "scale_cases", "numpy_id_descriptors", "inputs_with_outlived_bond_descriptor"]
 
 
 def _bonds(rng, ids, max_deg=4, p=0.35):
@@ -184,6 +184,17 @@ def check_case(ctx, case):
         ctx.case()
         return
     ctx.count(f"via:{via}")
+    if stereo and "scale" not in case and case["bseed"] % 5 == 1:
+        # an input graph in which a bond descriptor has outlived its bond (remove_bond keeps descriptors): the graph given
+        # to from_graphs then has neither that bond nor - as far as the reaction is concerned - that descriptor
+        for gx, x in ((gr, r), (gp, p)):
+            cand = sorted((b for b in x["bstereo"] if b in x["bonds"] and not any(e in x["astereo"] for e in b)), key=lambda b: sorted(map(repr, b)))
+            if cand and brng.random() < 0.7:
+                b = brng.choice(cand)
+                gx.remove_bond(*tuple(b))
+                del x["bonds"][b]
+                del x["bstereo"][b]
+                ctx.count("inputs_with_outlived_bond_descriptor")
     R, P = set(r["bonds"]), set(p["bonds"])
     T = set(t["bonds"]) if t else R | P
     differs = R != P or bool(sem.pg_diff(r, p, mode="equiv", attrs=False)) or bool(T - (R | P)) or bool(t and (t["astereo"] or t["bstereo"]))
